@@ -21,6 +21,7 @@ COLL_MUTANTS = [
     ('tbu', {'Mut': 'legacy_tryhint', 'MaxPolls': 1}, 'C17'),
     ('ja', {'Mut': 'legacy_joinleak'}, 'C06'),
     ('tja', {'Mut': 'legacy_tryjoin'}, 'C07'),
+    ('fub_panic', {'Mut': 'panic_requeue'}, 'C12'),
 ]
 ORDERED_MUTANTS = ['no_rebase_inc', 'no_rebase_running', 'no_rebase_parked', 'rebase_on_inc', 'front_postdec', 'heap_max', 'release_no_compare']
 RC_MUTANTS = [('DecOrd', 'Relaxed'), ('FenceOrd', 'Relaxed'), ('DecOrd', 'Acquire')]
